@@ -96,6 +96,7 @@ type Node struct {
 	Digests []string
 	dig     hash.Hash
 	GenTime time.Time
+	db      dbm.DB
 }
 
 // Step is one replayable ABCI action.
@@ -107,11 +108,15 @@ type Step struct {
 }
 
 func newApp() (*c4eapp.App, appparams.EncodingConfig) {
-	db := dbm.NewMemDB()
+	app, enc, _ := newAppDB(dbm.NewMemDB())
+	return app, enc
+}
+
+func newAppDB(db dbm.DB) (*c4eapp.App, appparams.EncodingConfig, dbm.DB) {
 	encoding := c4eapp.MakeEncodingConfig()
 	enc := appparams.EncodingConfig(encoding)
 	app := c4eapp.New(log.NewNopLogger(), db, nil, true, map[int64]bool{}, c4eapp.DefaultNodeHome, 0, enc, simapp.EmptyAppOptions{})
-	return app, enc
+	return app, enc, db
 }
 
 // DefaultMinterGenesis returns a no-minting genesis with explicit state.
@@ -265,12 +270,12 @@ func NewNode(spec GenesisSpec) (n *Node, err error) {
 
 // NewNodeFromGenesis starts a replica from raw genesis bytes (replay / import).
 func NewNodeFromGenesis(genesis []byte, t time.Time, initialHeight int64) (*Node, error) {
-	app, enc := newApp()
+	app, enc, db := newAppDB(dbm.NewMemDB())
 	valPriv := ed25519.GenPrivKeyFromSecret([]byte("verif-validator"))
 	tmPub, _ := cryptocodec.ToTmPubKeyInterface(valPriv.PubKey())
 	cons := tmPub.Address()
 	n := &Node{App: app, Enc: enc, Delegator: NewKey("delegator"), ValCons: cons, ValOper: sdk.ValAddress(cons),
-		rnd: rand.New(rand.NewSource(1)), Genesis: genesis}
+		rnd: rand.New(rand.NewSource(1)), Genesis: genesis, db: db}
 	if err := n.initChain(genesis, t, initialHeight); err != nil {
 		return nil, err
 	}
@@ -417,7 +422,15 @@ func (n *Node) DeliverTxBytes(bz []byte) (res abci.ResponseDeliverTx, err error)
 	}()
 	res = n.App.DeliverTx(abci.RequestDeliverTx{Tx: bz})
 	if n.Record && n.dig != nil {
-		fmt.Fprintf(n.dig, "tx|%d|%s|%d|", res.Code, res.Codespace, res.GasUsed)
+		gasUsed := res.GasUsed
+		if res.Code != 0 && res.GasWanted == 0 {
+			// cosmos-sdk 0.46 quirk: a transaction rejected before the ante handler set up its
+			// own gas meter (decoding / ValidateBasic) reports the gas the block context has
+			// consumed so far, which includes node-local work such as the capability module's
+			// InitMemStore after a restart. Upstream behaviour, not the repository's: left out.
+			gasUsed = 0
+		}
+		fmt.Fprintf(n.dig, "tx|%d|%s|%d|", res.Code, res.Codespace, gasUsed)
 		n.dig.Write(res.Data)
 		n.digestEvents("txev", res.Events)
 	}
@@ -616,4 +629,35 @@ func (n *Node) ProposalStatus(id uint64) string {
 		return ""
 	}
 	return p.Status.String()
+}
+
+// Restart emulates a node restart between two blocks: a new application object is
+// created on the same database and loads the latest committed version; everything
+// the old object kept in memory is gone.
+func (n *Node) Restart() (err error) {
+	if n.InBlock || n.db == nil {
+		return fmt.Errorf("restart only between blocks of a node with its own database")
+	}
+	defer func() {
+		if r := recover(); r != nil {
+			err = &PanicError{Where: "Restart", Value: fmt.Sprint(r), Stack: string(debug.Stack())}
+		}
+	}()
+	app, enc, _ := newAppDB(n.db)
+	n.App, n.Enc = app, enc
+	n.hasDeliver = false
+	return nil
+}
+
+// CheckAndSimulate does what a node does for a transaction it hears about before the
+// block arrives: CheckTx (mempool) and a gas simulation. Neither may influence results.
+func (n *Node) CheckAndSimulate(bz []byte) {
+	func() {
+		defer func() { recover() }()
+		n.App.CheckTx(abci.RequestCheckTx{Tx: bz, Type: abci.CheckTxType_New})
+	}()
+	func() {
+		defer func() { recover() }()
+		n.App.Simulate(bz)
+	}()
 }
